@@ -40,8 +40,10 @@ Qualifies(a, wl, lans, wildcard) ==
   \/ a = "wl6exact" /\ "v6" \in wl
   \/ \E l \in lans : InLan(a, l)
 
-AdmitCases == {[kind |-> "admit", addr |-> a, wl |-> w, lans |-> ls, wildcard |-> x] :
-                  a \in AllAddr, w \in SUBSET {"v4", "v6"}, ls \in {{}, {"10"}, {"172"}, {"192"}, Lans}, x \in BOOLEAN}
+\* junk: the configured whitelist ("wl") or LAN list ("lan") additionally holds an entry that is not an IP address / not
+\* a LAN name; it admits nobody (the configuration may be refused as a whole)
+AdmitCases == {[kind |-> "admit", addr |-> a, wl |-> w, lans |-> ls, wildcard |-> x, junk |-> j] :
+                  a \in AllAddr, w \in SUBSET {"v4", "v6"}, ls \in {{}, {"10"}, {"172"}, {"192"}, Lans}, x \in BOOLEAN, j \in {"none", "wl", "lan"}}
 
 (* ------------------------------ render ------------------------------ *)
 MaxMass == 206438400          \* consensus.MaxMass; one MASS = 10^8 maxwell
